@@ -72,9 +72,13 @@ MC_ISOS = ["I1", "I2", "I3"]
 EXTRA_COLUMNS = {}     # isotherm key -> names of additional float data columns
 
 
-def universe_json(isos=None):
+ALL_TRAITS = ["registry_autoinsert", "iso_type_leak", "real_affinity", "type_overwrite_noop", "no_ipt_table"]
+
+
+def universe_json(isos=None, traits=None):
     isos = list(isos or ISOS)
     return {
+        "traits": list(ALL_TRAITS if traits is None else traits),
         "files": ["d1", "d2"],
         "ads": list(NAMES["ads"]), "mats": list(NAMES["mats"]), "apt": list(NAMES["apt"]),
         "mpt": list(NAMES["mpt"]), "ity": list(NAMES["ity"]), "ipt": list(NAMES["ipt"]), "isos": isos,
@@ -272,6 +276,29 @@ class Session:
     def close(self):
         self.reset_registries()
         shutil.rmtree(self.dir, ignore_errors=True)
+
+
+def probe_traits(sess):
+    """Which of the known deviations does the tree under test show?  Only selects what the DESCRIPTIVE
+    model (Store!Impl) assumes, so that it keeps describing the code after a repair; no verdict depends on it."""
+    traits = []
+    sess.fresh()
+    execute(sess, op("iso_to", "d1", "I1", am=True, aa=True))
+    r = execute(sess, op("iso_from", "d1"))
+    if r["ret"] and "extra=iso_type" in r["ret"].get("I1", ""):
+        traits.append("iso_type_leak")
+    if execute(sess, op("iso_to", "d2", "I1", am=True, aa=True))["out"] == "refused":
+        traits.append("registry_autoinsert")
+    execute(sess, op("iso_to", "d1", "I2", am=True, aa=True))
+    r = execute(sess, op("iso_from", "d1"))
+    if r["ret"] and "changed=coerced" in r["ret"].get("I2", ""):
+        traits.append("real_affinity")
+    sess.fresh()
+    if execute(sess, op("apt_to", "d1", "pa", "t1", ow=True))["out"] == "ok" and sess.project("d1")["apt"]["pa"] == ABSENT:
+        traits.append("type_overwrite_noop")
+    if execute(sess, op("ipt_from", "d1"))["out"] == "error":
+        traits.append("no_ipt_table")
+    return traits
 
 
 def _rm(p):
